@@ -1,7 +1,10 @@
-"""src/selection.rs: the four selection actions (`act_toggle`, `act_toggle_all`, `act_select_all`, `act_deselect_all`) TRANSLATED into
-(guard, scope, operation) triples: is the action ignored in single-selection mode / on an empty list, does it act on the item under
-the cursor or on every listed item, does it insert, toggle or clear; the key is `(current_run_num(), item_idx)` of the item acted on.
-Props/SelOpsTables.lean proves that interpreting each triple IS the C10 model's action.  Fails closed on any other shape."""
+"""src/selection.rs, src/global.rs, src/helper/selector.rs — the selection-set level (C10), TRANSLATED:
+  * `act_toggle`, `act_toggle_all`, `act_select_all`, `act_deselect_all` as (guard, scope, operation) triples keyed by
+    `(current_run_num(), item_idx)`,
+  * the watermark bookkeeping of `append_sorted_items`, the guards of `pre_select` / `act_select_raw_item` and
+    `DefaultSkimSelector::should_select`, statement by statement (_rustfn),
+  * the initial `NUM_MAP` / `SEQ` / `RUN_NUM` and `mark_new_run` of global.rs.
+Props/SelOpsTables.lean proves that interpreting each IS the C10 model's function, for all states.  Fails closed on any other shape."""
 import os, re, sys
 sys.path.insert(0, os.path.dirname(os.path.abspath(__file__)))
 import _rustfn as R
@@ -60,13 +63,71 @@ def one(src, name):
 def extract(repo):
     src = open(os.path.join(repo, "src", "selection.rs")).read()
     rows = [one(src, n) for n in ("act_toggle", "act_toggle_all", "act_select_all", "act_deselect_all")]
-    out = ["namespace SkimModel.Generated.SelOps", "",
+    out = ["set_option linter.unusedVariables false", "namespace SkimModel.Generated.SelOps", "",
            "inductive Scope | cursor | all", "  deriving DecidableEq, Repr", "",
            "inductive Kind | toggle | insert | clear", "  deriving DecidableEq, Repr", "",
            "structure Act where", "  guarded : Bool      -- `if !self.multi_selection || self.items.is_empty() { return; }`",
            "  scope : Scope       -- the item under the cursor / every listed item", "  kind : Kind", "  deriving DecidableEq, Repr", ""]
     for name, g, sc, k in rows:
         out += ["/-- `fn %s` -/" % name, "def %s : Act := { guarded := %s, scope := %s, kind := %s }" % (name, g, sc, k), ""]
+    # append_sorted_items: the watermark bookkeeping around `pre_select` and the append (statement by statement, _rustfn)
+    A = {"current_run_num()": ("run", "Nat"), "items.is_empty()": ("batchEmpty", "Bool"),
+         "self.latest_select_run_num": ("latest", "Nat"), "self.pre_selected_watermark": ("wm", "Nat"),
+         "self.items.len()": ("n", "Nat"), "self.selector.is_none()": ("selectorNone", "Bool"),
+         "self.multi_selection": ("multi", "Bool")}
+    body = R.fn_body(src, "append_sorted_items")[0]
+    i = body.find("let current_run_num")
+    m = re.search(r"if ([^{]*?) \{\s*self\.pre_select\(&items\);\s*\}\s*self\.items\.append\(items\);(.*?)let height = self\.known_height\(\);",
+                  body, re.S)
+    if i < 0 or not m or m.start() < i:
+        raise R.Unsupported("append_sorted_items: not `let current_run_num ..; if c { pre_select }; append; ..; let height`")
+    head = R.translate(body[i:m.start()], A, result="(latest, wm)")
+    cond = R.translate(m.group(1), A)
+    tail = R.translate(re.sub(r"//[^\n]*", "", m.group(2)), A, result="wm")
+    # pre_select
+    b = norm(R.fn_body(src, "pre_select")[0])
+    b = re.sub(r"debug!\([^;]*\); ?", "", b)
+    b = re.sub(r" ?\. ?", ".", b).strip()
+    m = re.fullmatch(r"if ([^{]*?) \{ return; \} let current_run_num = current_run_num\(\); for item in items \{ "
+                     r"if self\.selector\.as_ref\(\)\.map\(\|s\| s\.should_select\(item\.item_idx as usize, item\.item\.as_ref\(\)\)\)"
+                     r"\.unwrap_or\(false\) \{ self\.act_select_raw_item\(current_run_num, item\.item_idx, item\.item\.clone\(\)\); \} \}", b)
+    if not m:
+        raise R.Unsupported("pre_select: not `if c { return; } for item in items { if selector says so { act_select_raw_item(run, idx, item) } }`")
+    skips = R.translate(m.group(1), A)
+    # act_select_raw_item / act_select_matched
+    b = norm(R.fn_body(src, "act_select_raw_item")[0])
+    m = re.fullmatch(r"(?:if ([^{]*?) \{ return; \} )?self\.selected\.insert\(\(run_num, item_index\), item\);", b)
+    if not m:
+        raise R.Unsupported("act_select_raw_item: not `[if c { return; }] insert((run_num, item_index), item)`")
+    raw_skips = R.translate(m.group(1), A) if m.group(1) else ("False", "Prop")
+    # DefaultSkimSelector::should_select
+    sel = open(os.path.join(repo, "src", "helper", "selector.rs")).read()
+    b = re.sub(r" ?\. ?", ".", norm(R.fn_body(sel, "should_select")[0]))
+    for text, name in (("self.preset.as_ref().map(|preset| preset.contains(item.text().as_ref())).unwrap_or(false)", "inPreset"),
+                       ("self.regex.as_ref().map(|re| re.is_match(&item.text())).unwrap_or(false)", "regexMatches")):
+        if b.count(text) != 1:
+            raise R.Unsupported("should_select: `%s` not found exactly once" % text)
+        b = b.replace(text, name)
+    SA = {"self.first_n": ("firstN", "Nat"), "self.preset.is_some()": ("presetSome", "Bool"), "self.regex.is_some()": ("regexSome", "Bool")}
+    should = R.translate(b, SA, locals_={"index": "Nat", "inPreset": "Bool", "regexMatches": "Bool"})
+    if should[1] != "Bool":
+        raise R.Unsupported("should_select: type %s" % should[1])
+
+    def ind(e):
+        return "\n".join("  " + l for l in e.split("\n"))
+    out += ["/-! the watermark bookkeeping of `append_sorted_items`, `pre_select`, `act_select_raw_item`, `should_select` -/", "",
+            "/-- from `let current_run_num = current_run_num();` to the `if` around `pre_select`: (latest_select_run_num, pre_selected_watermark) -/",
+            "def appendHead (run latest wm n : Nat) (batchEmpty : Bool) : Nat × Nat :=", ind(head[0]), "",
+            "/-- the condition under which `append_sorted_items` calls `pre_select` -/",
+            "def appendPreselects (wm n : Nat) : Bool :=", "  decide %s" % cond[0], "",
+            "/-- the watermark after `self.items.append(items)` (`n` = the length AFTER the append) -/",
+            "def appendTail (wm n : Nat) : Nat :=", ind(tail[0]), "",
+            "/-- the condition under which `pre_select` returns at once -/",
+            "def preSelectSkips (selectorNone multi : Bool) : Bool :=", "  decide %s" % skips[0], "",
+            "/-- the condition under which `act_select_raw_item` returns at once -/",
+            "def selectRawSkips (multi : Bool) : Bool :=", "  decide %s" % raw_skips[0], "",
+            "/-- `DefaultSkimSelector::should_select` -/",
+            "def shouldSelect (firstN index : Nat) (presetSome inPreset regexSome regexMatches : Bool) : Bool :=", ind(should[0]), ""]
     # src/global.rs: the run-number table
     g = open(os.path.join(repo, "src", "global.rs")).read()
     m1 = re.search(r"static ref RUN_NUM: AtomicU32 = AtomicU32::new\((\d+)\);", g)
